@@ -202,6 +202,15 @@ def _branches(root):
     return out
 
 
+def _shares(a, b):
+    """the two divided states hold one and the same dict object somewhere"""
+    if isinstance(a, dict) and a is b:
+        return True
+    if isinstance(a, dict) and isinstance(b, dict):
+        return any(_shares(a[k], b[k]) for k in a if k in b)
+    return False
+
+
 def _all_nodes(root):
     out = [root]
     for c in root.inner.values():
@@ -356,7 +365,11 @@ def gen_op(ctx, shadow, at=None, ps_choices=None, engine_ports=None):
         # if a variable below the mother holds a dict, `deep_merge` of one daughter's initial_state
         # mutates it and the state leaks into the other daughter.  The model has no sharing, so
         # no initial_state is given in that situation (see notes/C09.md).
-        shared = any(isinstance(n.value, dict) for n in _all_nodes(node.inner[mother]))
+        try:
+            halves = node.inner[mother].divide_value()
+            shared = bool(halves) and _shares(halves[0], halves[1])
+        except Exception:
+            shared = True
         ds = []
         for i in range(2):
             d = {'key': ctx.fresh('d')}
